@@ -70,7 +70,7 @@ def run_case(run, drv, case_seed):
         ver = rng.choice(["0", "1", "2", "3"])
         cmds.append(("ro", [rng.choice(["magnet", "m"]), meta] +
                      (["--meta-version", ver] if rng.random() < 0.7 else []), None))
-        outkind = rng.choice(["file", "dir", "default", "existing", "dir-noslash"])
+        outkind = rng.choice(["file", "dir", "default", "existing", "dir-noslash", "dangling-link", "link-to-file"])
         sub = rng.choice([["create"], ["new"], []])
         opts = ["--prog", rng.choice(["0", "1", "2"]), "--meta-version", str(m["version"])]
         if rng.random() < 0.3:
@@ -79,6 +79,20 @@ def run_case(run, drv, case_seed):
             out, expect = ["-o", os.path.join(outdir, "made.torrent")], os.path.join(outdir, "made.torrent")
         elif outkind == "existing":
             out, expect = ["-o", m["path"]], m["path"]
+        elif outkind in ("dangling-link", "link-to-file"):
+            # the output path is a symbolic link: the one file written is what it points to,
+            # the link itself stays
+            expect = os.path.join(outdir, "behind-the-link.torrent")
+            link = os.path.join(outdir, "link.torrent")
+            if os.path.lexists(link):
+                os.remove(link)
+            if os.path.lexists(expect):
+                os.remove(expect)
+            if outkind == "link-to-file":
+                with open(expect, "wb") as fd:
+                    fd.write(b"older, longer contents " * 200)
+            os.symlink(expect, link)
+            out = ["-o", link]
         elif outkind == "dir":
             out, expect = ["-o", outdir + "/"], os.path.join(outdir, name + ".torrent")
         elif outkind == "dir-noslash":      # an existing directory named without separator
@@ -133,7 +147,7 @@ def run_case(run, drv, case_seed):
                     probe_exists = os.path.exists(os.path.join(
                         outdir if outkind == "dir" else work, ".torrent")) and outkind in ("dir", "default")
                     outtok = "none" if not out else hx(out[1].encode())
-                    if not raised and outkind != "dir-noslash":
+                    if not raised and outkind not in ("dir-noslash", "dangling-link", "link-to-file"):
                         drv.ask(f"ops create {outtok} {hx(work.encode())} {hx(name.encode())} "
                                 f"{1 if probe_exists or outkind == 'existing' else 0}",
                                 ("create", c, [(t[0],) + tuple(os.path.join(box, p) for p in t[1:])
